@@ -103,7 +103,8 @@ def gen_history(rng, p, nsteps):
             vals = [corpus.rand_value(rng, a["ty"]) for a in m["args"]]
             doc = l2.msg_doc("exec", m, [(a["name"], corpus.jtext(v)) for a, v in zip(m["args"], vals)])
             sender = rng.choice(ACCOUNTS + (["failer"] if rng.random() < 0.1 else []))
-            funds = rng.choice(["-", "0", "7", "3", "5000"] if rng.random() < 0.3 else ["-", "0", "7", "3"])
+            # `z`: a coin list holding one zero-amount coin (the bank refuses it; a proxy must hand it over as given)
+            funds = rng.choice(["-", "0", "7", "3", "5000", "z"] if rng.random() < 0.3 else ["-", "0", "7", "3"])
             add("exec:%d:%d:%s:%s:%s:%s" % (slot, idx, m["name"], sender, funds, hx(corpus.jtext(vals))),
                 "exec:%d:%s:%s:%s" % (slot, sender, "0" if funds == "-" else funds, hx(doc)), "exec")
         elif r < 0.72:
@@ -131,7 +132,7 @@ def gen_history(rng, p, nsteps):
     return H, R, K
 
 
-CHAIN_ERRS = [("Cannot Sub", "funds"), ("already exists", "duplicate"), ("Only admin", "not-admin"), ("unregistered code id", "bad-code"), ("Label is required", "no-label")]
+CHAIN_ERRS = [("empty coins amount", "empty-coins"), ("Cannot Sub", "funds"), ("already exists", "duplicate"), ("Only admin", "not-admin"), ("unregistered code id", "bad-code"), ("Label is required", "no-label")]
 
 
 def canon_result(text, kind, side):
